@@ -107,6 +107,7 @@ class CType:
         self.core_cxx = core
         self.suf = suf
         self.name = mangle_core(core)
+        if '(lambda at' in core or 'lambda at ' in core: self.name = 'lambda_t'       # closure types: one opaque model type
         # const char * -> cstr (abstract C string), for every profile
         if self.name == 'char' and suf.startswith('*') and is_const_char_ptr(src):
             self.name = 'cstr'; self.suf = suf[1:]
@@ -387,6 +388,7 @@ class Lowerer:
                     return '%s(%s)' % (cname, self.e(base))
             return '((%s) != 0)' % self.e(sub)
         if ck in ('IntegralToBoolean', 'PointerToBoolean'):
+            if ct(sub).name == 'cstr' and not ct(sub).suf.count('*'): return '(!(%s).isnull)' % self.e(sub)      # const char * in boolean context
             return '((%s) != 0)' % self.e(sub)
         if ck == 'NullToPointer':
             t = ct(n)
@@ -518,7 +520,11 @@ class Lowerer:
         inner = n
         while inner['kind'] in ('ParenExpr',) or (inner['kind'] == 'ImplicitCastExpr' and inner.get('castKind') == 'NoOp'):
             inner = inner['inner'][0]
-        if self.is_lvalue(inner) or inner['kind'] in ('DeclRefExpr', 'MemberExpr', 'ArraySubscriptExpr'):
+        tempish = inner
+        while tempish.get('kind') in ('ExprWithCleanups', 'CXXBindTemporaryExpr'): tempish = tempish['inner'][0]
+        is_temp = tempish.get('kind') == 'MaterializeTemporaryExpr' or (tempish.get('kind') in ('CXXOperatorCallExpr', 'CXXMemberCallExpr', 'CallExpr') and self.is_extern_call(tempish)
+                                                                         and not (self.is_lvalue(tempish) and not is_const(nodetype(tempish)[0])))
+        if not is_temp and (self.is_lvalue(inner) or inner['kind'] in ('DeclRefExpr', 'MemberExpr', 'ArraySubscriptExpr')):
             x = self.e(inner)
             if x.startswith('(*') and x.endswith(')') and balanced(x[2:-1]): return x[2:-1]
             return '&' + x
@@ -922,7 +928,11 @@ class Lowerer:
         raise Unsupported('InitListExpr of %s (line %s)' % (t.name, src_line(n)))
 
     def e_LambdaExpr(self, n):
-        raise Unsupported('lambda expression in this position (line %s)' % src_line(n))
+        lname, caps = self.lower_lambda(n)
+        self.lambda_ids = getattr(self, 'lambda_ids', [])
+        if lname not in self.lambda_ids: self.lambda_ids.append(lname)
+        self.rule('lambda used as a value -> closure id of the lowered lambda function')
+        return 'lambda_value(LAMBDA_%s)' % lname
     def e_CXXNewExpr(self, n):
         if n.get('isArray') or n.get('isPlacement'):
             raise Unsupported('array/placement new (line %s)' % src_line(n))
